@@ -15,6 +15,7 @@ From Coq Require Import List NArith QArith Bool.
 Import ListNotations.
 From AgileV Require Import Evo.Heap Evo.Evo Evo.EvoProofs C02.Model C02.Proofs C02.ProofsFollow.
 From AgileV Require C03.Model C02.ProofsArch.
+From AgileV Require Import C02.ProofsAct.
 Open Scope N_scope.
 
 (* MUTATION COHERENT (one individual) — for every well-formed registry, every store, every mutation kind
@@ -144,6 +145,40 @@ Theorem none_mutation_not_identity :
     map (rd (fst x')) (blk (snd x') kExt) <> map (rd s) (blk a kExt).
 Proof. exact C02.ProofsArch.none_mutation_not_identity_lemma. Qed.
 Print Assumptions none_mutation_not_identity.
+
+(* ACTIVATION MUTATION — Mutations._permutate_activation as modelled ([permutate]: candidates = a copy of the object's
+   activation_selection minus the network's current activation): the new activation lies in the selection ... *)
+Theorem permutate_in_selection : forall (sel : list N) (cur : N) (draw : nat),
+  sel <> [] -> In (permutate sel cur draw) sel.
+Proof. exact permutate_in_selection_lemma. Qed.
+Print Assumptions permutate_in_selection.
+
+(* ... and differs from the current one whenever the (duplicate-free) selection offers an alternative: an agent that
+   reports "act" really has another activation. *)
+Theorem permutate_changes : forall (sel : list N) (cur : N) (draw : nat),
+  NoDup sel -> (2 <= length sel)%nat -> permutate sel cur draw <> cur.
+Proof. exact permutate_changes_lemma. Qed.
+Print Assumptions permutate_changes.
+
+(* THE SELECTION IS CONSTANT STATE — over every history of activation mutations through one Mutations object (any number,
+   any draws) the object's selection is the one it was created with and every activation taken lies in it. *)
+Theorem selection_invariant : forall (draws : list nat) (sel : list N) (cur : N),
+  sel <> [] ->
+  fst (act_run (sel, cur) draws) = sel /\ (draws <> [] -> In (snd (act_run (sel, cur) draws)) sel).
+Proof. exact act_run_spec. Qed.
+Print Assumptions selection_invariant.
+
+(* REFUTED — the variant without the copy (list.remove applied to the object's own list): with three activations, after
+   two mutations the selection has one element left and the third mutation re-selects the activation the network already
+   has (the agent would still report "act"). *)
+Theorem act_selection_consumed_refuted :
+  exists sel cur d1 d2 d3,
+    NoDup sel /\ length sel = 3%nat /\
+    let s2 := act_step_consuming (act_step_consuming (sel, cur) d1) d2 in
+    let s3 := act_step_consuming s2 d3 in
+    length (fst s2) = 1%nat /\ snd s3 = snd s2.
+Proof. exact act_consuming_refuted_lemma. Qed.
+Print Assumptions act_selection_consumed_refuted.
 
 (* SHARED NETWORKS FOLLOW — right after Mutations.mutation the architecture id of every shared/target network is the one of
    the evaluation network it shadows, whatever the individual looked like before (no coherence hypothesis). *)
